@@ -1,10 +1,8 @@
 #!/bin/bash
-# Offline setup after a fresh restore: warm the Go build cache for the checker.
+# Offline setup after a fresh restore: warm the Go build cache for all checks.
 set -u
 export GOFLAGS=-mod=mod GOPROXY=off GOSUMDB=off GOTOOLCHAIN=local CGO_ENABLED=0
 cd "$(dirname "$0")/vmod" || exit 1
 [ -f go.sum ] || cp /repo/go.sum go.sum
-mkdir -p ../.work/bin
-go build -o ../.work/bin/check.setup ./cmd/check || exit 1
-rm -f ../.work/bin/check.setup
+go build ./... || exit 1
 echo setup ok
